@@ -452,7 +452,10 @@ def run_to_completion(state: State, external_event: Union[dict, Event]) -> State
 
         advancing_heads = _resolve_action_conflicts(state, actionable_heads)
 
-        heads_are_advancing = len(advancing_heads) > 0
+        # (a failed flow may have left its ColangError event in the queue)
+        heads_are_advancing = (
+            len(advancing_heads) > 0 or len(state.internal_events) > 0
+        )
         actionable_heads = _advance_head_front(state, advancing_heads)
         heads_are_merging = True
 
@@ -849,8 +852,8 @@ def _resolve_action_conflicts(
     advancing_heads: List[FlowHead] = []
     if len(actionable_heads) == 1:
         # If we have only one actionable head there is no conflict
-        advancing_heads = actionable_heads
-        _generate_action_event_from_actionable_element(state, list(actionable_heads)[0])
+        if _try_generate_action_event(state, list(actionable_heads)[0]):
+            advancing_heads = actionable_heads
     elif len(actionable_heads) > 1:
         # Group all actionable heads by their flows interaction loop
         head_groups: Dict[str, List[FlowHead]] = {}
@@ -903,8 +906,8 @@ def _resolve_action_conflicts(
                 picked_head.matching_scores,
             )
 
-            advancing_heads.append(picked_head)
-            _generate_action_event_from_actionable_element(state, picked_head)
+            if _try_generate_action_event(state, picked_head):
+                advancing_heads.append(picked_head)
             for head in ordered_heads:
                 if head == picked_head:
                     continue
@@ -989,6 +992,26 @@ def _resolve_action_conflicts(
                     _abort_flow(state, flow_state, head.matching_scores)
 
     return advancing_heads
+
+
+def _try_generate_action_event(state: State, head: FlowHead) -> bool:
+    """Generate the action event of an actionable head; a flow whose event cannot be
+    created (e.g., invalid event arguments) fails alone."""
+    try:
+        _generate_action_event_from_actionable_element(state, head)
+        return True
+    except Exception as e:
+        flow_state = get_flow_state_from_head(state, head)
+        log.warning("Flow '%s' failed to send an event: %s", flow_state.flow_id, e)
+        _abort_flow(state, flow_state, head.matching_scores)
+        _push_left_internal_event(
+            state,
+            Event(
+                name="ColangError",
+                arguments={"type": str(type(e).__name__), "error": str(e)},
+            ),
+        )
+        return False
 
 
 def _advance_head_front(state: State, heads: List[FlowHead]) -> List[FlowHead]:
